@@ -43,6 +43,9 @@ def record(ad, cfg, steps):
 
 def _record_job(job):
     cfg, steps = job
+    if isinstance(steps, tuple) and steps and steps[0] == "driver":
+        # reactive stimulus (depends on the observations): built inside the worker
+        steps = _AD.random_schedule(rng("driver", steps[1]), cfg, steps[2])
     try:
         return record(_AD, cfg, steps)
     except Exception as e:   # construction/elaboration problems belong to C19
@@ -160,7 +163,10 @@ def check_into(run, prop, tier, ad):
     jobs = []
     for _ in range(sizes["random_traces"]):
         cfg = ad.random_cfg(r)
-        jobs.append((cfg, list(ad.random_schedule(r, cfg, sizes["length"]))))
+        if getattr(ad, "reactive", False):
+            jobs.append((cfg, ("driver", r.getrandbits(40), sizes["length"])))
+        else:
+            jobs.append((cfg, list(ad.random_schedule(r, cfg, sizes["length"]))))
     traces = pmap(_record_job, jobs)
     obs_t = []
     for t in traces:
